@@ -445,15 +445,24 @@ class Interp:
         if t.startswith('<') and '::promoted[' in t:
             pcc = parse_callee(t.rsplit('::', 1)[0])
             prom = t.rsplit('::', 1)[1]
+            suffix = ''
+            if pcc['method'].startswith('{closure') and pcc['segs']:
+                # `<T as Trait>::method::{closure#0}::promoted[k]`
+                tail = pcc['segs'][1:] + [pcc['method']]
+                pcc = dict(pcc, method=pcc['segs'][0], segs=[])
+                suffix = '::' + '::'.join(tail)
             fnc = self.index.resolve(pcc)
             if fnc is not None:
-                cf = self.dump.consts.get(fnc.name + '::' + prom)
+                cf = self.dump.consts.get(fnc.name + suffix + '::' + prom)
                 if cf is not None:
                     key = ('const', cf.name)
                     if key not in self.ctx.const_cache:
                         self.ctx.const_cache[key] = run_to_end(self.call_fn(cf, []))
                     return self.ctx.const_cache[key]
             raise Unsupported('promoted constant not resolved: ' + t)
+        so = _select_out(t)
+        if so is not None:
+            return Enum('SelectOut%d' % so[1], so[0], {so[0]: ()})
         # unit enum variants
         flat = strip_generics(t)
         segs = flat.split('::')
@@ -574,6 +583,10 @@ class Interp:
                'Less': -1, 'Equal': 0, 'Greater': 1, 'Continue': 0, 'Break': 1,
                'Occupied': 0, 'Vacant': 1, 'Left': 0, 'Right': 1}
         ename = v.name if isinstance(v, Enum) else None
+        if ename and ename.startswith('SelectOut'):
+            if name == 'Disabled':
+                return int(ename[len('SelectOut'):])
+            return int(name[1:])
         if ename in ('Option', 'Result', 'Poll', 'Ordering', 'ControlFlow', 'Entry', None) and name in std:
             return std[name]
         ev = self.src.enum_variants(ename)
@@ -708,6 +721,10 @@ class Interp:
         if last in ('Continue', 'Break') and len(segs) >= 2 and segs[-2] == 'ControlFlow':
             i = 0 if last == 'Continue' else 1
             return Enum('ControlFlow', i, {i: tuple(vals)})
+        so = _select_out(head)
+        if so is not None:
+            idx, nbr = so
+            return Enum('SelectOut%d' % nbr, idx, {idx: tuple(vals)})
         # crate enums: `Enum::Variant`
         if len(segs) >= 2:
             ev = self.src.enum_variants(segs[-2], '::'.join(segs[:-2]))
@@ -984,7 +1001,9 @@ class Interp:
 
     def call_closure(self, clo, args):
         """call a closure / fn item value with a python list of argument values"""
+        clo_ref = None
         if isinstance(clo, Ref):
+            clo_ref = clo
             clo = read_loc(clo.loc)
         if isinstance(clo, FnItem):
             r = yield from self.call(clo.path, args)
@@ -998,9 +1017,26 @@ class Interp:
         pty = fn.params[0][1].strip()
         self_arg = clo
         if pty.startswith('&'):
-            self_arg = Ref(Loc(Cell(clo, 'closure-env')), pty.startswith('&mut'))
+            self_arg = clo_ref if clo_ref is not None else Ref(Loc(Cell(clo, 'closure-env')), pty.startswith('&mut'))
         r = yield from self.call_fn(fn, [self_arg] + list(args))
         return r
+
+
+def _select_out(head):
+    """tokio::select!'s `__tokio_select_util::Out::<A, B, ..>::_k` / `::Disabled` -> (variant index, branches)"""
+    m = re.search(r'__tokio_select_util::Out::<', head)
+    if not m:
+        return None
+    i = m.end() - 1
+    j = match_close(head, i)
+    nbr = len(split_top(head[i + 1:j]))
+    tail = head[j + 1:].lstrip(':')
+    if tail == 'Disabled':
+        return nbr, nbr
+    mm = re.match(r'_(\d+)$', tail)
+    if mm:
+        return int(mm.group(1)), nbr
+    return None
 
 
 def _safe_lit(t):
